@@ -28,6 +28,80 @@ theorem StepErr.emit {s : WState} {enc : Option EncState} {bs : Bytes}
   | some e => exact hk _
   | none => exact StepErr.io (Tight.writeAll _) fun _ => hk _
 
+/-- the error path of `emitFinish`: the destructor's retry (result ignored), then the error -/
+theorem errPath_never {s : WState} (m : Method) (bs : Bytes) (e : ZErr) :
+    NeverOk ((if m == .deflated || m == .bzip2 then do
+        let _ ← M.attempt (M.writeAll bs)
+        pure (.error e, s)
+      else pure (.error e, s)) : M (Except ZErr β × WState)) := by
+  intro fa d v s' d' he
+  split at he
+  · rw [M.bind_apply, M.attempt_apply] at he
+    cases h : M.writeAll bs fa d with
+    | mk o d1 =>
+      rw [h] at he
+      cases o <;> cases he
+  · cases he
+
+theorem errPath_uni {s : WState} (m : Method) (bs : Bytes) (e : ZErr) :
+    Uniform ((if m == .deflated || m == .bzip2 then do
+        let _ ← M.attempt (M.writeAll bs)
+        pure (.error e, s)
+      else pure (.error e, s)) : M (Except ZErr β × WState)) := by
+  split
+  · exact Uniform.bind (Uniform.attempt (Tight.writeAll _).uni) fun _ => Uniform.pure _
+  · exact Uniform.pure _
+
+theorem StepOK.emitFinish {s : WState} {m : Method} {enc : Option EncState} {bs : Bytes}
+    {k : Option EncState → M (Except ZErr β × WState)} (hk : ∀ e, StepOK (k e)) :
+    StepOK (Model.emitFinish s m enc bs k) := by
+  unfold Model.emitFinish
+  cases enc with
+  | some e => exact hk _
+  | none =>
+    dsimp only
+    have hm := Tight.writeAll bs
+    refine ⟨Uniform.bind (Uniform.attempt hm.uni) ?_, ?_⟩
+    · intro r
+      cases r with
+      | ok a => exact (hk none).uni
+      | error e => exact errPath_uni m bs e
+    · intro kk d v s' d'' he
+      rw [M.bind_apply, M.attempt_apply] at he
+      have c1 := hm.clean kk d
+      cases h : M.writeAll bs (some kk) d with
+      | mk o d' =>
+        rw [h] at he c1
+        cases o with
+        | ok a =>
+          dsimp only at he c1
+          have n2 := (hk none).ep kk d' v s' d'' he
+          intro hf
+          rcases hf.split (d' := d') with h | h
+          · have := c1 h; cases this
+          · exact n2 h
+        | err e => exact absurd he (errPath_never m bs e _ _ _ _ _)
+        | panic p => cases he
+
+theorem StepErr.emitFinish {s : WState} {m : Method} {enc : Option EncState} {bs : Bytes}
+    {k : Option EncState → M (Except ZErr β × WState)} (hk : ∀ e, StepErr (k e)) :
+    StepErr (Model.emitFinish s m enc bs k) := by
+  refine ⟨(StepOK.emitFinish (s := s) (m := m) (enc := enc) (bs := bs) fun e => (hk e).toOK).uni, ?_⟩
+  unfold Model.emitFinish
+  cases enc with
+  | some e => exact (hk _).never
+  | none =>
+    dsimp only
+    intro fa d v s' d'' he
+    rw [M.bind_apply, M.attempt_apply] at he
+    cases h : M.writeAll bs fa d with
+    | mk o d' =>
+      rw [h] at he
+      cases o with
+      | ok a => exact (hk none).never _ _ _ _ _ he
+      | err e => exact absurd he (errPath_never m bs e _ _ _ _ _)
+      | panic p => cases he
+
 theorem StepOK.updateLocalHeader {s : WState} {file : FileData}
     {k : Unit → M (Except ZErr β × WState)} (hk : ∀ u, StepOK (k u)) :
     StepOK (Model.updateLocalHeader s file k) := by
@@ -37,6 +111,8 @@ theorem StepOK.updateLocalHeader {s : WState} {file : FileData}
 end
 
 macro_rules | `(tactic| fault_step) => `(tactic| with_reducible apply StepOK.emit)
+macro_rules | `(tactic| fault_step) => `(tactic| with_reducible apply StepOK.emitFinish)
+macro_rules | `(tactic| fault_step) => `(tactic| with_reducible apply StepErr.emitFinish)
 macro_rules | `(tactic| fault_step) => `(tactic| with_reducible apply StepOK.updateLocalHeader)
 
 theorem switchTo_stepOK (ext : WExt) (c : Method) (l : Option Int) (s : WState) :
